@@ -57,8 +57,10 @@ theorem premote_early (env : Env) (he : Returns env) (hc : C05.Returns env) (a :
 
 set_option maxRecDepth 8000 in
 set_option maxHeartbeats 4000000 in
-theorem premote_late_fired (env : Env) (he : Returns env) (a : Async) (ha : premoteCov a) (n m : Nat) (hm : m < loopLen n premoteL premoteLr) :
-    ∃ F, StreamShape n (execBlock env F { inputs := List.replicate n .item ++ [.release], left := some (m + premoteP), async := a } premoteRun) := by
+/-- a graceful stop that lands inside the loop - in any pass, at any line - still ends the stream with exactly one end marker -/
+theorem premote_late_fired_graceful (env : Env) (he : Returns env) (a : Async) (ha : premoteCov a) (hk : a ≠ .kill) (n m : Nat)
+    (hm : m < loopLen n premoteL premoteLr) :
+    ∃ F, StreamEnds n (execBlock env F { inputs := List.replicate n .item ++ [.release], left := some (m + premoteP), async := a } premoteRun) := by
   obtain ⟨F, hF40, hF⟩ := premote_loop_disturbed env he a ha n
   have hW : premoteW = .whileS _ _ _ := rfl
   have hrule := loop_fire_rule env a n premoteL premoteLr F premoteW premoteExtra hF
@@ -73,14 +75,55 @@ theorem premote_late_fired (env : Env) (he : Returns env) (a : Async) (ha : prem
   unfold premoteP
   rcases ha with rfl | rfl | rfl
   all_goals
-    (simp [premoteRun, premoteExtra, firedOut, firedReq, firedCtrl, exec_line, exec_ret, exec_brk, exec_call, exec_ifS, exec_tryS, execBlock, execHandlers,
-       lineEvent, doActs, doAct, evalCond, Catch.catches, hrule, hm, he.ret, he.tn, he.na]
-     generalize hg : loopEx env F _ _ = g
-     obtain ⟨j, hj, hres⟩ := hp _ _ hg rfl rfl ⟨rfl, rfl, rfl⟩ (by unfold premoteExtra; first | rfl | trivial)
-     simp only [List.nil_append] at hres
-     first
-       | exact ⟨by simp, j, hj, Or.inr ⟨_, by rw [hres]⟩⟩
-       | exact ⟨by simp, j, hj, Or.inl hres⟩)
+    first
+    | exact absurd rfl hk
+    | (simp [premoteRun, premoteExtra, firedOut, firedReq, firedCtrl, exec_line, exec_ret, exec_brk, exec_call, exec_ifS, exec_tryS, execBlock, execHandlers,
+         lineEvent, doActs, doAct, evalCond, Catch.catches, hrule, hm, he.ret, he.tn, he.na]
+       generalize hg : loopEx env F _ _ = g
+       obtain ⟨j, hj, hres⟩ := hp _ _ hg rfl rfl ⟨rfl, rfl, rfl⟩ (by unfold premoteExtra; first | rfl | trivial)
+       simp only [List.nil_append] at hres
+       exact ⟨by simp, j, hj, _, by rw [hres]⟩)
+
+set_option maxRecDepth 8000 in
+set_option maxHeartbeats 4000000 in
+theorem premote_late_fired_kill (env : Env) (he : Returns env) (n m : Nat) (hm : m < loopLen n premoteL premoteLr) :
+    ∃ F, StreamShape n (execBlock env F { inputs := List.replicate n .item ++ [.release], left := some (m + premoteP), async := .kill } premoteRun) := by
+  obtain ⟨F, hF40, hF⟩ := premote_loop_disturbed env he .kill (by simp [premoteCov]) n
+  have hW : premoteW = .whileS _ _ _ := rfl
+  have hrule := loop_fire_rule env .kill n premoteL premoteLr F premoteW premoteExtra hF
+  have hpre := loop_fire_prefix env .kill n premoteL premoteLr F premoteW premoteExtra hF
+  rw [hW] at hrule hpre
+  have hp : ∀ (g st : St), loopEx env F st (.whileS (lnOf premoteW) (condOf premoteW) (bodyOf premoteW)) = g →
+      st.inputs = List.replicate n .item ++ [.release] → st.left = some m → QuietC .kill st → premoteExtra st →
+      ∃ j, j ≤ n ∧ g.results = st.results ++ itemsFrom st.counter j := by
+    intro g st h hi hl hq hx; rw [← h]; exact hpre st m hi hl hm hq hx
+  clear hpre hF
+  refine ⟨F + 90, ?_⟩
+  unfold premoteP
+  simp [premoteRun, premoteExtra, firedOut, firedReq, firedCtrl, exec_line, exec_ret, exec_brk, exec_call, exec_ifS, exec_tryS, execBlock, execHandlers,
+    lineEvent, doActs, doAct, evalCond, Catch.catches, hrule, hm, he.ret, he.tn, he.na]
+  generalize hg : loopEx env F _ _ = g
+  obtain ⟨j, hj, hres⟩ := hp _ _ hg rfl rfl ⟨rfl, rfl, rfl⟩ (by unfold premoteExtra; first | rfl | trivial)
+  simp only [List.nil_append] at hres
+  first
+    | exact ⟨by simp, j, hj, Or.inl hres⟩
+    | exact ⟨by simp, j, hj, Or.inr ⟨_, by rw [hres]⟩⟩
+
+theorem premote_late_fired (env : Env) (he : Returns env) (a : Async) (ha : premoteCov a) (n m : Nat) (hm : m < loopLen n premoteL premoteLr) :
+    ∃ F, StreamShape n (execBlock env F { inputs := List.replicate n .item ++ [.release], left := some (m + premoteP), async := a } premoteRun) := by
+  by_cases hk : a = .kill
+  · subst hk; exact premote_late_fired_kill env he n m hm
+  · obtain ⟨F, h⟩ := premote_late_fired_graceful env he a ha hk n m hm
+    exact ⟨F, h.shape⟩
+
+/-- a graceful stop landing inside the loop, for every fuel from some point on -/
+theorem premote_ends_in_loop (env : Env) (he : Returns env) (a : Async) (ha : premoteCov a) (hk : a ≠ .kill) (n K : Nat)
+    (h1 : premoteP ≤ K) (h2 : K < premoteP + loopLen n premoteL premoteLr) :
+    ∃ F0, ∀ F, F0 ≤ F →
+      StreamEnds n (execBlock env F { inputs := List.replicate n .item ++ [.release], left := some K, async := a } premoteRun) := by
+  obtain ⟨m, rfl⟩ : ∃ m, K = m + premoteP := ⟨K - premoteP, by omega⟩
+  obtain ⟨F, h⟩ := premote_late_fired_graceful env he a ha hk n m (by omega)
+  exact ⟨F, streamEnds_mono env _ _ n F h⟩
 
 
 /-- **the whole regenerated program, any number of items, any landing point of the event up to the end of the loop**
